@@ -15,8 +15,12 @@ Exit codes: 0 = all required obligations discharged (KNOWN-FINDING lines allowed
 import argparse, concurrent.futures as cf, glob, hashlib, json, os, re, resource, shutil, subprocess, sys, time
 
 ROOT = os.path.dirname(os.path.dirname(os.path.abspath(__file__)))
-HARNESS = f'{ROOT}/harness'
 BUILD = f'{ROOT}/.build'
+# The registered checks always analyse /repo.  For trying seeded changes without touching /repo, VERIF_REPO may name a scratch
+# worktree: the harness crate is then mirrored with its path dependencies rewritten, with its own build directory.
+REPO = os.path.abspath(os.environ.get('VERIF_REPO', '/repo'))
+ALT = '' if REPO == '/repo' else '-alt-' + re.sub(r'[^A-Za-z0-9]', '_', REPO)
+HARNESS = f'{ROOT}/harness' if not ALT else f'{BUILD}/harness{ALT}'
 KANI_REAL = '/root/.kani/kani-0.68.0'
 KANI_SHADOW = f'{ROOT}/.kani-home'
 BIN = f'{KANI_REAL}/bin'
@@ -34,7 +38,7 @@ def log(*a):
 def parse_harnesses(pid):
     """Harness table, parsed from the annotations in harness/src/<pid>_*.rs."""
     out = []
-    for f in sorted(glob.glob(f'{HARNESS}/src/{pid.lower()}_*.rs')):
+    for f in sorted(glob.glob(f'{ROOT}/harness/src/{pid.lower()}_*.rs')):
         src = open(f).read()
         for m in ANNOT.finditer(src):
             doc = ' '.join(l.strip().lstrip('/').strip() for l in m.group(1).strip().splitlines())
@@ -61,9 +65,13 @@ def kani_env():
 def build(pid, names, stubbing=False):
     """Regenerate the GOTO programs from the current source.  Returns {harness name: metadata}."""
     os.makedirs(BUILD, exist_ok=True)
+    if ALT:
+        subprocess.run(['rsync', '-a', '--delete', '--exclude', 'target', '--exclude', 'Cargo.lock', f'{ROOT}/harness/', HARNESS + '/'], check=True)
+        ct = open(f'{HARNESS}/Cargo.toml').read().replace('"/repo/', '"' + REPO + '/')
+        open(f'{HARNESS}/Cargo.toml', 'w').write(ct)
     if os.path.exists('/repo/Cargo.lock'):
         shutil.copy('/repo/Cargo.lock', f'{HARNESS}/Cargo.lock')
-    tdir = f'{BUILD}/kani' + ('-stub' if stubbing else '')
+    tdir = f'{BUILD}/kani{ALT}' + ('-stub' if stubbing else '')
     cmd = ['cargo', 'kani', '--lib', '--only-codegen', '--no-assertion-reach-checks', '--features', pid.lower(),
            '--target-dir', tdir]
     if stubbing:
@@ -403,7 +411,7 @@ def native_replay(pid, name, path):
     res = {}
     for prof in ('dev', 'release'):
         cmd = ['cargo', 'run', '--offline', '-q', '--features', f'std,{pid.lower()}', '--bin', 'replay',
-               '--target-dir', f'{BUILD}/native']
+               '--target-dir', f'{BUILD}/native{ALT}']
         if prof == 'release':
             cmd.append('--release')
         cmd += ['--', name, path]
@@ -510,7 +518,7 @@ def main():
     default_to = 600 if tier == 'quick' else 1800
     default_mem = 12 if tier == 'quick' else 24
     jobs = a.jobs or int(os.environ.get('VERIF_JOBS', '12'))
-    wroot = f'{BUILD}/work/{pid}'
+    wroot = f'{BUILD}/work{ALT}/{pid}'
     shutil.rmtree(wroot, ignore_errors=True)
 
     def one(h):
@@ -566,7 +574,7 @@ def main():
             log(f'INCONCLUSIVE property={pid} harness={h["name"]}: solver reported {r["detail"]!r} but no concrete values could be extracted')
             inconclusive.append(r)
             continue
-        os.makedirs(f'{ROOT}/replays/{pid}', exist_ok=True)
+        os.makedirs(f'{ROOT}/replays/{pid}', exist_ok=True)  # (replays of seeded-change trials land here too; the directory is git-ignored)
         reproduced = False
         tried = []
         for chk, vals in cands[:4]:
@@ -630,10 +638,10 @@ def main():
         ],
         wall_s=round(time.time() - t_start, 1), violations=viol_reported,
     )
-    extra = f'{HARNESS}/src/{pid.lower()}_assumptions.txt'
+    extra = f'{ROOT}/harness/src/{pid.lower()}_assumptions.txt'
     if os.path.exists(extra):
         ev['assumptions'] += [l.strip() for l in open(extra) if l.strip()]
-    if not a.no_evidence and not a.only:
+    if not a.no_evidence and not a.only and not ALT:
         os.makedirs(f'{ROOT}/evidence', exist_ok=True)
         json.dump(ev, open(f'{ROOT}/evidence/{pid}.json', 'w'), indent=1)
     log(f'[{pid}] tier={tier} obligations={obligations} discharged={discharged} capped={len(capped)} inconclusive={len(inconclusive)} '
